@@ -350,3 +350,69 @@ pr_arm!(probe_pv_f_forget, { let n = pv(crate::oracle::T_C_F, true); assert!(n =
 /// @harness id=probe_pv_f_drop props=PROBE unwind=18 mem=8 cap=300 unwindset=rec~ParseErrorType:3;rec~LexicalErrorType:3;rec~FStringErrorType:3
 /// by-value match, C_F, normal drop
 pr_arm!(probe_pv_f_drop, { let n = pv(crate::oracle::T_C_F, false); assert!(n == 3); reach!("q0"); });
+macro_rules! pr2_arm {
+    ($id:ident, $body:expr) => {
+        #[cfg_attr(kani, kani::proof)]
+        #[cfg_attr(kani, kani::stub(rustpython_parser::parse, crate::oracle::oracle_parse_hist))]
+        #[cfg_attr(kani, kani::stub(std::path::Path::canonicalize, crate::stubs::canonicalize_err))]
+        #[cfg_attr(kani, kani::stub(std::path::Path::exists, crate::stubs::path_exists_false))]
+        #[cfg_attr(kani, kani::stub(core::slice::memchr::memchr, crate::stubs::memchr_bytewise))]
+        #[cfg_attr(kani, kani::stub(crate::fixtures::FixtureDatabase::get_imported_fixtures, crate::h_hist::stub_no_imports))]
+        #[cfg_attr(kani, kani::stub(crate::fixtures::FixtureDatabase::is_fixture_imported_in_file, crate::h_hist::stub_not_imported))]
+        pub fn $id() { $body }
+    };
+}
+/// @harness id=probe_c07a props=PROBE unwind=18 mem=12 cap=600 unwindset=memchr_seq:400;memchr_bytewise:64;sip:48
+/// seed + one get_available_fixtures
+pr2_arm!(probe_c07a, {
+    use crate::h_hist::*; use crate::oracle::*;
+    let db = FixtureDatabase::new();
+    let first = fresh_c_f(PC);
+    seed_file_state(&db, PC, T_C_F, &first);
+    let av = db.get_available_fixtures(Path::new(PU));
+    assert!(av.len() == 1);
+    reach!("q0");
+    std::mem::forget(av); std::mem::forget(first); std::mem::forget(db);
+});
+/// @harness id=probe_c07b props=PROBE unwind=18 mem=12 cap=600 unwindset=memchr_seq:400;memchr_bytewise:64;sip:48
+/// seed + two get_available_fixtures (second one served from the cache)
+pr2_arm!(probe_c07b, {
+    use crate::h_hist::*; use crate::oracle::*;
+    let db = FixtureDatabase::new();
+    let first = fresh_c_f(PC);
+    seed_file_state(&db, PC, T_C_F, &first);
+    let av = db.get_available_fixtures(Path::new(PU));
+    let av2 = db.get_available_fixtures(Path::new(PU));
+    assert!(av.len() == 1 && av2.len() == 1);
+    reach!("q0");
+    std::mem::forget(av); std::mem::forget(av2); std::mem::forget(first); std::mem::forget(db);
+});
+/// @harness id=probe_c07c props=PROBE unwind=18 mem=12 cap=600 unwindset=memchr_seq:400;memchr_bytewise:64;sip:48
+/// seed + available + cleanup_file_cache + available
+pr2_arm!(probe_c07c, {
+    use crate::h_hist::*; use crate::oracle::*;
+    let db = FixtureDatabase::new();
+    let first = fresh_c_f(PC);
+    seed_file_state(&db, PC, T_C_F, &first);
+    let av = db.get_available_fixtures(Path::new(PU));
+    db.cleanup_file_cache(Path::new(PC));
+    let av2 = db.get_available_fixtures(Path::new(PU));
+    assert!(av.len() == av2.len());
+    reach!("q0");
+    std::mem::forget(av); std::mem::forget(av2); std::mem::forget(first); std::mem::forget(db);
+});
+/// @harness id=probe_c07d props=PROBE unwind=18 mem=12 cap=600 unwindset=memchr_seq:400;memchr_bytewise:64;sip:48
+/// seed + available + analyze(empty) + available, compare lengths only
+pr2_arm!(probe_c07d, {
+    use crate::h_hist::*; use crate::oracle::*;
+    let db = FixtureDatabase::new();
+    let first = fresh_c_f(PC);
+    seed_file_state(&db, PC, T_C_F, &first);
+    let av = db.get_available_fixtures(Path::new(PU));
+    db.analyze_file(PathBuf::from(PC), T_C_EMPTY);
+    let av2 = db.get_available_fixtures(Path::new(PU));
+    assert!(av.len() == 1);
+    if crate::kf::C07_NO_VERSION_BUMP_ON_REMOVAL { check!("KF:c07.available.warm_is_cold", av2.len() == 0); } else { check!("c07.available.warm_is_cold", av2.len() == 0); }
+    reach!("q0");
+    std::mem::forget(av); std::mem::forget(av2); std::mem::forget(first); std::mem::forget(db);
+});
